@@ -111,23 +111,38 @@ def run_cvc5(obl, timeout_s):
             pass
 
 
-def discharge(obls, timeout=20, procs=16, seed=0, on_model=None, use_cvc5=True, retry_timeout=90, progress=None, want_hash=False):
-    """returns list of Result aligned with obls"""
+def discharge(obls, timeout=20, procs=16, seed=0, on_model=None, use_cvc5=True, retry_timeout=90, progress=None, want_hash=False, hints=None):
+    """returns list of Result aligned with obls.  Every obligation has a plan = list of rungs (backend, budget) tried in order until
+    one answers sat/unsat: z3 on the ground fragment, z3, cvc5, z3 with the long budget.  `hints` (obligation id -> backend that
+    discharged it when the lock was written) only moves that rung to the front; the remaining rungs still follow."""
+    hints = hints or {}
     results = [None] * len(obls)
-    todo = []
+    plans = {}
     for i, o in enumerate(obls):
         if z3.is_true(o.goal) and o.expect == 'unsat':
             results[i] = Result(o.id, 'unsat', 'syntactic', 0.0)
+            continue
+        if o.expect != 'unsat':
+            plan = [('z3', min(timeout, 4))]
+        elif z3.is_false(z3.simplify(o.goal)) or o.meta.get('kind', '').split(':')[0] in ('noninterference', 'no-global-write', 'nondegenerate', 'frame', 'fresh', 'deterministic', 'no-other-exception'):
+            # goal `False`: discharged only if the path is infeasible, which is found quickly or not at all
+            plan = [('z3:short', min(timeout, 10))]
         else:
-            if o.expect != 'unsat':
-                todo.append((i, min(timeout, 4), 'z3'))
-            elif z3.is_false(z3.simplify(o.goal)) or o.meta.get('kind', '').split(':')[0] in ('noninterference', 'no-global-write', 'nondegenerate', 'frame', 'fresh', 'deterministic', 'no-other-exception'):
-                # goal `False`: discharged only if the path is infeasible, which is found quickly or not at all
-                todo.append((i, min(timeout, 10), 'z3:short'))
-            elif not has_quantifier(o.goal):
-                todo.append((i, 4, 'z3:ground'))      # cheap first rung: quantifier-free goal from the quantifier-free hypotheses
-            else:
-                todo.append((i, timeout, 'z3'))
+            plan = []
+            if not has_quantifier(o.goal):
+                plan.append(('z3:ground', 4))      # cheap first rung: quantifier-free goal from the quantifier-free hypotheses
+            plan.append(('z3', timeout))
+            if use_cvc5:
+                plan.append(('cvc5', timeout))
+            if retry_timeout:
+                plan.append(('z3:long', retry_timeout))
+            h = hints.get(o.id)
+            if h and any(b == h for b, _ in plan) and plan[0][0] != h:
+                plan = [x for x in plan if x[0] == h] + [x for x in plan if x[0] != h]
+        plans[i] = plan
+    todo = [(i, plans[i][0][1], plans[i][0][0]) for i in sorted(plans)]
+    for i in plans:
+        plans[i] = plans[i][1:]
     running = {}
 
     def launch(i, tmo, backend):
@@ -194,21 +209,15 @@ def discharge(obls, timeout=20, procs=16, seed=0, on_model=None, use_cvc5=True, 
                 secs = time.time() - t0
                 v = out['verdict']
                 o = obls[i]
+                prev = results[i]
+                spent = secs + (prev.secs if prev else 0)
                 if v in ('sat', 'unsat'):
-                    results[i] = Result(o.id, v, be, secs, out.get('model'), out.get('reason', ''), out.get('rl', 0), out.get('h', ''))
+                    results[i] = Result(o.id, v, be, spent, out.get('model'), out.get('reason', ''), out.get('rl', 0))
                 else:
-                    prev = results[i]
-                    results[i] = Result(o.id, 'unknown', be, secs + (prev.secs if prev else 0), None, out.get('reason', ''),
-                                        out.get('rl', 0), out.get('h', '') or (prev.h if prev else ''))
-                    # ladder: z3 -> cvc5 -> z3 (long)
-                    if o.expect != 'unsat' or be == 'z3:short':
-                        pass
-                    elif be == 'z3:ground':
-                        retries.append((i, timeout, 'z3'))
-                    elif be == 'z3' and tmo == timeout and use_cvc5:
-                        retries.append((i, timeout, 'cvc5'))
-                    elif (be == 'cvc5' or (be == 'z3' and tmo == timeout and not use_cvc5)) and retry_timeout:
-                        retries.append((i, retry_timeout, 'z3'))
+                    results[i] = Result(o.id, 'unknown', be, spent, None, out.get('reason', ''), out.get('rl', 0))
+                    if plans[i]:
+                        nb, nt = plans[i].pop(0)
+                        retries.append((i, nt, nb))
                 if progress:
                     progress(results[i])
         if not todo and not running and retries:
